@@ -2300,6 +2300,7 @@ def _make_promotion_decls(
             # names hoisted out of a top-level statement of the prologue or of the main
             # loop body live at file scope: their values persist from pass to pass
             global_scope=(scope == "setup" and depth == 0) or (scope == "loop" and depth == 1),
+            hoisted=True,
         )
         if decl.global_scope:
             if all(existing.name != name for existing in globals_list):
@@ -2320,6 +2321,10 @@ def _rewrite_nodes(nodes: List[object], promoted: Set[str]) -> List[object]:
     rewritten: List[object] = []
     for node in nodes:
         if isinstance(node, VarDecl) and node.name in promoted:
+            if node.hoisted:
+                # the name is declared (with the same default) further out: repeating
+                # the default here would reset it on every iteration
+                continue
             rewritten.append(VarAssign(name=node.name, expr=node.expr))
             continue
         if isinstance(node, IfStatement):
